@@ -309,6 +309,10 @@ def contReq (st : St) (toks : List String) : St × String :=
   | ["g.ser", i, _fmt] => match i.toNat? with
     | some i => (st, withOrder st i toks fun π => showDoc (decompose st.s (nodeVal st) π))
     | none => (st, "bad-op")
+  | ["g.serraw", i, "json"] => match i.toNat? with
+    -- the bytes `serde_json::to_vec` writes, from the byte-level model
+    | some i => (st, withOrder st i toks fun π => String.ofList ((Json.serJson st.s (nodeVal st) π).map Char.ofNat))
+    | none => (st, "bad-op")
   | ["g.roundtrip", i, _fmt] => match i.toNat? with
     | some i =>
       match orderAnnot toks with
